@@ -17,6 +17,9 @@ import EdzedModel.Gen.TranslatedSig
 import EdzedModel.Gen.TranslatedVblk
 import EdzedModel.Gen.TranslatedWiring
 import EdzedProofs.WiringTie
+import EdzedModel.Gen.TranslatedCsig
+import EdzedModel.Gen.TranslatedCBlocks
+import EdzedProofs.CsigTie
 
 namespace Edzed.Wiring
 
@@ -820,6 +823,12 @@ theorem translated_wiring_register (kd : BKind) (c : Circ) (r : SRef) (needS : B
       | .ok c' => (c', .ok ())
       | .error e => (withSlots (c.slots ++ [⟨r, needS⟩]) c, .error (excOf e)) := register_run kd c r needS
 
+/-- `_BlockResolver.__init__`: a new resolver has no registration to resolve (and keeps the resolve
+    function it was given, `Circuit._validate_blk`: checked by the generator) -/
+theorem translated_wiring_resolver_init (kd : BKind) (c : Circ) :
+    Gen.TrW.resolverInit (prims kd) c = (c, .ok ()) ∧ (prims kd).unresolved ({} : Circ) = [] :=
+  ⟨rfl, rfl⟩
+
 /-- `_BlockResolver.resolve`: every registration that holds a name, in order: resolve, check the
     type, store; the first failure ends the loop with what was stored so far -/
 theorem translated_wiring_resolve (kd : BKind) (c : Circ) :
@@ -854,5 +863,214 @@ theorem translated_wiring_keys_kept (c c' : Circ) (hk : KeysOK c) (h : Wiring.fi
     KeysOK c' := (finalizeInner_run (.s) c hk).2 c' h
 
 example : KeysOK {} := fun b cls h => by simp at h
+
+/-! #### the signature check of combinational blocks (tools/py2lean_csig.py regenerates
+     `Gen.TrCS.…`; EdzedProofs/CsigTie.lean interprets the primitives: `CsigTie.cprims`) -/
+
+open Edzed.CsigTie
+
+/-- `CBlock.input_signature` -/
+theorem translated_csig_input_signature_is_model {V : Type} (c : Circ) (cm) (out : Ref → V) (b : String) :
+    Gen.TrCS.inputSignature (cprims c cm out) (c.inputs b) =
+      (match Wiring.inputSignature c b with
+        | .ok l => .ok l
+        | .error _ => .error .invalidState) := inputSignature_run c cm out b
+
+/-- `setdiff_msg`: the message has a section for the unexpected names (each with what difflib
+    suggests) iff there are any, then one for the missing names iff there are any -/
+theorem translated_csig_setdiff_msg_is_model {V : Type} (c : Circ) (cm) (out : Ref → V) (a e : List String) :
+    Gen.TrCS.setdiffMsg (cprims c cm out) a e =
+      .ok (sectsOf cm (a.filter fun k => !e.contains k) (e.filter fun k => !a.contains k)) :=
+  setdiffMsg_run c cm out a e
+
+/-- `CBlock.check_signature`, for EVERY well-formed expected signature and every connection set:
+    the translated statements return the block's signature exactly when the model has no diagnosis,
+    and raise the ValueError the model's diagnosis describes (names / differing inputs) otherwise;
+    an unconnected block raises EdzedInvalidState -/
+theorem translated_csig_check_signature_is_model {V : Type} (c : Circ) (cm) (out : Ref → V) (b : String)
+    (esig : List (String × Expect)) (ee : List (String × Gen.TrCS.E)) (he : encSig esig = some ee) :
+    Gen.TrCS.checkSignature (cprims c cm out) (c.inputs b) ee =
+      (match Wiring.checkSignatureD c b esig, Wiring.inputSignature c b with
+        | .ok none, .ok bsig => .ok bsig
+        | .ok (some d), _ => .error (excOfDiag cm d)
+        | _, _ => .error .invalidState) := checkSignature_run c cm out b esig ee he
+
+/-- the argument of `check_signature` in a translated `start()` (tools/py2lean_cblocks.py):
+    `super().start()` first, then the check with a literal dict of `None` / sizes -/
+def sigOfStart : List Gen.TrC.StartPrim → Option (List (String × Gen.TrCS.E))
+  | [.superStart, .checkSignature l] => some (l.map fun p => (p.1, p.2.map Sum.inl))
+  | _ => none
+
+/-- the CALL SITES: `Not.start`, `Compare.start`, `Override.start` (translated in
+    Gen/TranslatedCBlocks.lean) hand exactly the model's expectation to the `check_signature`
+    translated here -/
+theorem translated_sig_start_call_sites :
+    sigOfStart Gen.TrC.notStart = (expectedSig .not).bind encSig ∧
+    sigOfStart Gen.TrC.compareStart = (expectedSig .not).bind encSig ∧
+    sigOfStart Gen.TrC.overrideStart = (expectedSig .ovr).bind encSig := ⟨rfl, rfl, rfl⟩
+
+/-- `Circuit.getblocks`: all blocks in creation order, or those of the class asked for -- the
+    snapshots `_finalize` takes are the model's `cblockNames` / `notNames` -/
+theorem translated_csig_getblocks_is_model {V : Type} (c : Circ) (cm) (out : Ref → V) :
+    Gen.TrCS.getblocks (cprims c cm out) c.order none = .ok c.order ∧
+    Gen.TrCS.getblocks (cprims c cm out) c.order (some .cblock) = .ok (cblockNames c) ∧
+    Gen.TrCS.getblocks (cprims c cm out) c.order (some .not) = .ok (notNames c) := getblocks_run c cm out
+
+/-- `CBlock.InputGetter.__getitem__` -/
+theorem translated_csig_getitem_is_model {V : Type} (c : Circ) (cm) (out : Ref → V) (b name : String) :
+    Gen.TrCS.inputGetterGetitem (cprims c cm out) (c.inputs b) name =
+      (match Wiring.inputGet out c b name with
+        | .ok v => .ok v
+        | .error _ => .error .keyError) := getitem_run c cm out b name
+
+/-- `CBlock.__init_subclass__` -/
+theorem translated_csig_init_subclass_is_model (hasAddon : Bool) :
+    Gen.TrCS.cblockInitSubclass hasAddon =
+      (match cblockSubclassAllowed hasAddon with
+        | .ok () => .ok ()
+        | .error _ => .error .typeError) := by
+  cases hasAddon <;> rfl
+
+/-! property-level consequences -/
+
+/-- a combinational block class with an SBlock add-on is refused when the class is defined -/
+theorem cblock_with_addon_refused : cblockSubclassAllowed true = .error .typeError ∧
+    cblockSubclassAllowed false = .ok () := ⟨rfl, rfl⟩
+
+/-- `check_signature` raises its ValueError exactly if the block is connected and the sets of input
+    names differ or some input has not the expected shape (single / group size within the bounds) -/
+theorem check_signature_raises_iff (c : Circ) (b : String) (esig : List (String × Expect)) :
+    (∃ d, Wiring.checkSignatureD c b esig = .ok (some d)) ↔
+      ∃ bsig, Wiring.inputSignature c b = .ok bsig ∧
+        ¬ (sameKeys bsig esig = true ∧ ∀ p ∈ esig, ∃ v, bsig.lookup p.1 = some v ∧ p.2.accepts v) := by
+  have h1 := checkSignature_iff_diag c b esig
+  have h2 := Wiring.check_signature_accepts_iff c b esig
+  unfold Wiring.checkSignatureD at h1 ⊢
+  cases hs : Wiring.inputSignature c b with
+  | error e => simp
+  | ok bsig =>
+    rw [hs] at h1
+    simp only [hs, Except.ok.injEq, exists_eq_left'] at h2
+    simp only [Except.ok.injEq, exists_eq_left']
+    constructor
+    · rintro ⟨d, hd⟩ hacc
+      have := h1.mp (h2.mpr hacc)
+      rw [Except.ok.injEq] at this
+      rw [this] at hd; cases hd
+    · intro hna
+      cases hd : sigDiagnosis bsig esig with
+      | some d => exact ⟨d, rfl⟩
+      | none => exact absurd (h2.mp (h1.mpr (by simp only [hd]))) hna
+
+/-- the "unexpected / missing" message names exactly the connected inputs that are not expected
+    and the expected inputs that are not connected -/
+theorem check_signature_message_names (bsig : List (String × Option Nat)) (esig : List (String × Expect))
+    (u m : List String) (h : sigDiagnosis bsig esig = some (.names u m)) :
+    (∀ k, k ∈ u ↔ k ∈ keysOf bsig ∧ k ∉ keysOf esig) ∧
+    (∀ k, k ∈ m ↔ k ∈ keysOf esig ∧ k ∉ keysOf bsig) := by
+  unfold sigDiagnosis at h
+  split at h
+  · cases h
+  · split at h
+    · cases h
+      constructor <;> intro k <;> simp [List.mem_filter]
+    · split at h
+      · cases h
+      · simp only at h; split at h <;> cases h
+
+/-- the other message has one item for exactly the expected inputs whose shape differs -/
+theorem check_signature_message_values (bsig : List (String × Option Nat)) (esig : List (String × Expect))
+    (l : List String) (h : sigDiagnosis bsig esig = some (.values l)) :
+    ∀ k, k ∈ l ↔ ∃ e, (k, e) ∈ esig ∧
+      (match bsig.lookup k with
+        | some v => valueDiff e v = true
+        | none => True) := by
+  unfold sigDiagnosis at h
+  split at h
+  · cases h
+  · split at h
+    · cases h
+    · split at h
+      · cases h
+      · simp only at h
+        split at h
+        · cases h
+        · cases h
+          intro k
+          simp only [keysOf, List.mem_map, List.mem_filter]
+          constructor
+          · rintro ⟨⟨k', e⟩, ⟨hm, hq⟩, rfl⟩
+            refine ⟨e, hm, ?_⟩
+            cases hl : bsig.lookup k' with
+            | none => trivial
+            | some v => simpa [hl] using hq
+          · rintro ⟨e, hm, hq⟩
+            refine ⟨(k, e), ⟨hm, ?_⟩, rfl⟩
+            cases hl : bsig.lookup k with
+            | none => simp [hl]
+            | some v => simpa [hl] using hq
+
+example : sigDiagnosis [("a", none), ("g", some 0)] [("a", .single), ("x", .exact 1)] =
+    some (.names ["g"] ["x"]) := by decide
+
+example : sigDiagnosis [("a", some 0), ("g", some 3)] [("a", .single), ("g", .range (some 0) (some 2))] =
+    some (.values ["a", "g"]) := by decide
+
+/-- `CBlock.get_conf`: the item 'type', and -- only in a finalized circuit -- the item 'inputs'
+    with the name of every single input and the tuple of names of every group, in the order of
+    `inputs` (an unresolved reference has no `.name`: AttributeError) -/
+theorem translated_csig_get_conf_is_model {V : Type} (c : Circ) (cm) (out : Ref → V) (b : String) :
+    Gen.TrCS.cblockGetConf (cprims c cm out) c.finalized (c.inputs b) =
+      (match Wiring.getConfInputs c b with
+        | none => .ok { type := "combinational", inputs := none }
+        | some none => .error .attributeError
+        | some (some l) => .ok { type := "combinational", inputs := some (l.map fun p => (p.1, confSum p.2)) }) :=
+  getConf_run c cm out b
+
+/-- what the trial call of `FuncBlock.start` raises: `bind` of the function's signature refuses the
+    connected inputs with TypeError -/
+def trialOf (f : FSig) (unpack : Bool) (ins : Inputs) : Option String :=
+  match Wiring.funcStart f unpack ins with
+  | .ok () => none
+  | .error _ => some "TypeError"
+
+/-- the CALL SITE of the binding: the translated `FuncBlock.start` (Gen/TranslatedCBlocks.lean), given
+    what the trial call does for a function with signature `f`, goes on to the base class exactly
+    when the function can be called with the connected inputs, and raises TypeError otherwise -- the
+    user's function restored first in both cases -/
+theorem translated_sig_funcblock_start_call_site (f : FSig) (unpack : Bool) (ins : Inputs) :
+    Gen.TrC.funcBlockStart (trialOf f unpack ins) =
+      .saveFunc :: .setFunc .bind :: .calcOutput :: .setFunc .user ::
+        [if f.binds (callShape unpack ins).1 (callShape unpack ins).2 then .superStart else .raise "TypeError"] := by
+  unfold trialOf Wiring.funcStart
+  cases f.binds (callShape unpack ins).1 (callShape unpack ins).2 <;> rfl
+
+/-- `FuncBlock.start` accepts exactly the connection sets the function can be called with: the
+    members of the unnamed group as positional arguments (or the whole group as one argument when
+    `unpack=False`) and every other input by keyword -- not more positional arguments than
+    parameters unless `*args`, every keyword a parameter not yet given by position (or `**kwargs`),
+    every parameter without default supplied -/
+theorem funcblock_start_accepts_iff_callable (f : FSig) (unpack : Bool) (ins : Inputs) :
+    Wiring.funcStart f unpack ins = .ok () ↔
+      Callable f (callShape unpack ins).1 (callShape unpack ins).2 := by
+  unfold Wiring.funcStart
+  rw [← binds_iff]
+  cases f.binds (callShape unpack ins).1 (callShape unpack ins).2 <;> simp
+
+/-- a refusal is a TypeError -/
+theorem funcblock_start_refuses_with_type_error (f : FSig) (unpack : Bool) (ins : Inputs) :
+    Wiring.funcStart f unpack ins = .ok () ∨ Wiring.funcStart f unpack ins = .error .typeError := by
+  unfold Wiring.funcStart
+  split <;> simp
+
+example : (Wiring.funcStart { pos := [("a", false), ("b", true)], kwonly := [("k", false)] } true
+    [("_", .group [.name "x"]), ("k", .single (.name "y"))]).isOk = true := by decide
+
+example : (Wiring.funcStart { pos := [("a", false), ("b", true)], kwonly := [("k", false)] } true
+    [("_", .group [.name "x"]), ("a", .single (.name "y")), ("k", .single (.name "y"))]).isOk = false := by
+  decide
+
+example : (Wiring.funcStart { pos := [("a", false)] } false
+    [("_", .group [.name "x", .name "y", .name "z"])]).isOk = true := by decide
 
 end Edzed.TrTie
